@@ -120,10 +120,13 @@ package crypto
 //@ cfunc map_bytes_to_Fr props C12 C09
 //@ requires a != nil && in_len >= 0 && valid(in, in_len)
 //@ assigns *a
+//@ ensures [scalar-is-the-bytes-reduced-mod-r] *a == old(benat(in[0:in_len])) % FrR()
+//@ ensures [reports-zero] result == (*a == 0)
 
 //@ cfunc Fr_from_be_bytes nobody params out in in_len
 //@ requires out != nil && in_len >= 0 && valid(in, in_len)
 //@ assigns *out
+//@ ensures *out == old(benat(in[0:in_len])) % FrR()
 
 // (a typed-nil *pubKeyBLSBLS12381 inside a PublicKey cannot be built outside the package: the type is unexported)
 //@ pred noTypedNilKeys(ks) = forall(k, 0, len(ks), typeis(ks[k], *pubKeyBLSBLS12381) ==> unbox(ks[k], *pubKeyBLSBLS12381) != nil)
@@ -229,6 +232,8 @@ package crypto
 //@ func mapToFr mode int props C12 C09
 //@ requires x != nil && len(src) >= 1
 //@ assigns *x
+//@ ensures [scalar-is-the-bytes-reduced-mod-r] *x == old(benat(src)) % FrR()
+//@ ensures [reports-zero] result == (*x == 0)
 
 //@ func generateFrPolynomial mode int props C06 C09
 //@ dead-return 2   // NewChacha20PRG only fails for a seed or customizer of the wrong length: both are constant here
@@ -1700,7 +1705,7 @@ package crypto
 
 // the two algorithm contexts are set once, by the package initialiser (proved there: contract of init#1)
 //@ global p256Instance != nil && secp256k1Instance != nil && p256Instance.curve == p256c() && p256Instance.algo == ECDSAP256 && secp256k1Instance.algo == ECDSASecp256k1
-//@ global secp256k1Instance.curve != nil && curveN(secp256k1Instance.curve) == 115792089237316195423570985008687907852837564279074904382605163141518161494337 && curveBits(secp256k1Instance.curve) == 256
+//@ global secp256k1Instance.curve == box(s256p(), *secp256k1.KoblitzCurve) && curveN(secp256k1Instance.curve) == 115792089237316195423570985008687907852837564279074904382605163141518161494337 && curveP(secp256k1Instance.curve) == 115792089237316195423570985008687907853269984665640564039457584007908834671663 && curveBits(secp256k1Instance.curve) == 256
 
 //@ func bitsToBytes mode int props C11 C09
 //@ requires 0 <= bits && bits <= 1000000
@@ -1752,3 +1757,142 @@ package crypto
 //@ ensures [hasher-size] alg != nil && alg.osize < 32 ==> len(result0) == 0 && iserr(result1, *invalidHasherSizeError)
 //@ ensures [signs-the-whole-digest] alg != nil && alg.osize >= 32 && result1 == nil ==> len(result0) == 64 && ecdsaSigOf(sk.alg.curve, sk.goPrKey.D.v, hout(alg.cfg, seqid(data)), be32v(result0[0:32]), be32v(result0[32:64]))
 //@ ensures [key-untouched] unchanged(sk.goPrKey) && unchanged(sk.alg)
+
+// ---- ECDSA key construction (C12, ECDSA half of C05). The representation invariants skECDSAOK / pkECDSAOK that Sign and
+// Verify rely on are established here; keyOf: the Go key holds the scalar d and its public point.
+//@ global one != nil && one.v == 1
+//@ pred curveOK(c) = c == p256c() || c == box(s256p(), *secp256k1.KoblitzCurve)
+//@ pred curveSizes(c) = 57896044618658097711785492504343953926634992332820282019728792003956564819968 <= curveN(c) && curveN(c) < 115792089237316195423570985008687907853269984665640564039457584007913129639936 && 57896044618658097711785492504343953926634992332820282019728792003956564819968 <= curveP(c) && curveP(c) < 115792089237316195423570985008687907853269984665640564039457584007913129639936
+//@ pred goKeyOf(k, c, d) = k != nil && k.D != nil && k.D.v == d && k.Curve == c && k.X != nil && k.Y != nil && k.X.v == pubX(c, d) && k.Y.v == pubY(c, d)
+
+//@ func goecdsaPrivateKey mode int props C12 C05 C09
+//@ dead-return 3   // crypto/ecdh accepts every scalar in [1, n-1]
+//@ requires d != nil && 1 <= d.v && d.v < curveN(curve) && curveN(curve) < 115792089237316195423570985008687907853269984665640564039457584007913129639936
+//@ requires 57896044618658097711785492504343953926634992332820282019728792003956564819968 <= curveP(curve) && curveP(curve) < 115792089237316195423570985008687907853269984665640564039457584007913129639936 && 57896044618658097711785492504343953926634992332820282019728792003956564819968 <= curveN(curve)
+//@ assigns nothing
+//@ ensures [unsupported-curve] !curveOK(curve) ==> result0 == nil && iserr(result1, *invalidInputsError)
+//@ ensures [key-is-the-scalar-and-its-public-point] curveOK(curve) ==> result1 == nil && fresh(result0) && goKeyOf(result0, curve, d.v) && result0.D == d
+
+//@ func goecdsaMapKey mode int props C12 C09
+//@ requires curveOK(curve) && curveSizes(curve)
+//@ assigns nothing
+//@ ensures [scalar-is-the-seed-reduced-into-1-to-n-1] result1 == nil && fresh(result0) && goKeyOf(result0, curve, benat(seed) % (curveN(curve) - 1) + 1)
+
+//@ func overwrite mode int props C12 C09
+//@ assigns data[:]
+
+//@ func (*ecdsaAlgo).generatePrivateKey mode int props C12 C09
+//@ dead-return 2   // HKDF cannot fail for a 48-byte output
+//@ dead-return 3   // the scalar is in [1, n-1] and the curve is supported
+//@ requires ecdsaAlgoOK(a) && curveOK(a.curve) && curveSizes(a.curve)
+//@ assigns nothing
+//@ ensures [seed-length] (len(seed) < 32 || len(seed) > 256) ==> result0 == nil && iserr(result1, *invalidInputsError)
+//@ ensures [key-is-hkdf-of-the-seed-reduced-into-1-to-n-1] len(seed) >= 32 && len(seed) <= 256 ==> result1 == nil && typeis(result0, *prKeyECDSA) && fresh(unbox(result0, *prKeyECDSA)) && skECDSAOK(unbox(result0, *prKeyECDSA)) && unbox(result0, *prKeyECDSA).alg == a && unbox(result0, *prKeyECDSA).pubKey == nil && goKeyOf(unbox(result0, *prKeyECDSA).goPrKey, a.curve, hkdfNat(seqid(seed), seqid(""), seqid(""), 48) % (curveN(a.curve) - 1) + 1)
+
+//@ func (*ecdsaAlgo).rawDecodePrivateKey mode int props C05 C12 C09
+//@ dead-return 2   // the scalar is in [1, n-1] and the curve is supported
+//@ requires ecdsaAlgoOK(a) && curveOK(a.curve) && curveSizes(a.curve)
+//@ assigns nothing
+//@ ensures [accepts-exactly-32-byte-scalars-in-1-to-n-1] (result1 == nil) == (len(der) == 32 && 1 <= be32(der[0:32]) && be32(der[0:32]) < curveN(a.curve))
+//@ ensures [rejects-with-invalid-input] result1 != nil ==> result0 == nil && iserr(result1, *invalidInputsError)
+//@ ensures [key] result1 == nil ==> typeis(result0, *prKeyECDSA) && fresh(unbox(result0, *prKeyECDSA)) && skECDSAOK(unbox(result0, *prKeyECDSA)) && unbox(result0, *prKeyECDSA).alg == a && goKeyOf(unbox(result0, *prKeyECDSA).goPrKey, a.curve, be32(der[0:32]))
+
+//@ func (*ecdsaAlgo).rawDecodePublicKey mode int props C05 C09
+//@ dead-return 1   // the curve is one of the two supported ones
+//@ requires ecdsaAlgoOK(a) && curveOK(a.curve) && curveSizes(a.curve)
+//@ assigns nothing
+//@ ensures [accepts-exactly-reduced-on-curve-points] (result1 == nil) == (len(der) == 64 && be32(der[0:32]) < curveP(a.curve) && be32(der[32:64]) < curveP(a.curve) && onCurve(a.curve, be32(der[0:32]), be32(der[32:64])))
+//@ ensures [rejects-with-invalid-input] result1 != nil ==> result0 == nil && iserr(result1, *invalidInputsError)
+//@ ensures [key] result1 == nil ==> typeis(result0, *pubKeyECDSA) && fresh(unbox(result0, *pubKeyECDSA)) && pkECDSAOK(unbox(result0, *pubKeyECDSA)) && unbox(result0, *pubKeyECDSA).alg == a && unbox(result0, *pubKeyECDSA).goPubKey.X.v == be32(der[0:32]) && unbox(result0, *pubKeyECDSA).goPubKey.Y.v == be32(der[32:64])
+
+//@ func (*ecdsaAlgo).decodePublicKeyCompressed mode int props C05 C09
+//@ dead-return 1   // the curve is one of the two supported ones
+//@ requires ecdsaAlgoOK(a) && curveOK(a.curve) && curveSizes(a.curve) && curveBits(a.curve) == 256
+//@ assigns nothing
+//@ ensures [accepts-exactly-x962-compressed-points] (result1 == nil) == (len(pkBytes) == 33 && (pkBytes[0] == 2 || pkBytes[0] == 3) && be32(pkBytes[1:33]) < curveP(a.curve) && compressedOK(a.curve, pkBytes[0], be32(pkBytes[1:33])))
+//@ ensures [rejects-with-invalid-input] result1 != nil ==> result0 == nil && iserr(result1, *invalidInputsError)
+//@ ensures [key] result1 == nil ==> typeis(result0, *pubKeyECDSA) && fresh(unbox(result0, *pubKeyECDSA)) && pkECDSAOK(unbox(result0, *pubKeyECDSA)) && unbox(result0, *pubKeyECDSA).goPubKey.X.v == be32(pkBytes[1:33])
+
+//@ func (*prKeyECDSA).PublicKey mode int props C12 C09
+//@ requires skECDSAOK(sk) && sk.goPrKey.X != nil && sk.goPrKey.Y != nil && (sk.pubKey != nil ==> pkECDSAOK(sk.pubKey) && sk.pubKey.goPubKey == &sk.goPrKey.PublicKey)
+//@ assigns sk.pubKey
+//@ ensures [public-key-of-the-private-key-cached] typeis(result, *pubKeyECDSA) && unbox(result, *pubKeyECDSA) == sk.pubKey && pkECDSAOK(sk.pubKey) && sk.pubKey.goPubKey == &sk.goPrKey.PublicKey && (old(sk.pubKey) != nil ==> sk.pubKey == old(sk.pubKey))
+
+// ---- key generation / decoding entry points (C12, C05)
+//@ pred ecdsaCtx(a) = ecdsaAlgoOK(a) && curveOK(a.curve) && curveSizes(a.curve) && curveBits(a.curve) == 256
+
+//@ func (*ecdsaAlgo).decodePrivateKey mode int props C05 C12 C09
+//@ requires ecdsaCtx(a)
+//@ assigns nothing
+//@ ensures [accepts-exactly-32-byte-scalars-in-1-to-n-1] (result1 == nil) == (len(der) == 32 && 1 <= be32(der[0:32]) && be32(der[0:32]) < curveN(a.curve))
+//@ ensures [rejects-with-invalid-input] result1 != nil ==> result0 == nil && iserr(result1, *invalidInputsError)
+//@ ensures [key] result1 == nil ==> typeis(result0, *prKeyECDSA) && skECDSAOK(unbox(result0, *prKeyECDSA)) && goKeyOf(unbox(result0, *prKeyECDSA).goPrKey, a.curve, be32(der[0:32]))
+
+//@ func (*ecdsaAlgo).decodePublicKey mode int props C05 C09
+//@ requires ecdsaCtx(a)
+//@ assigns nothing
+//@ ensures [accepts-exactly-reduced-on-curve-points] (result1 == nil) == (len(der) == 64 && be32(der[0:32]) < curveP(a.curve) && be32(der[32:64]) < curveP(a.curve) && onCurve(a.curve, be32(der[0:32]), be32(der[32:64])))
+//@ ensures [rejects-with-invalid-input] result1 != nil ==> result0 == nil && iserr(result1, *invalidInputsError)
+//@ ensures [key] result1 == nil ==> typeis(result0, *pubKeyECDSA) && pkECDSAOK(unbox(result0, *pubKeyECDSA))
+
+//@ func newSigner mode int props C12 C05 C09
+//@ assigns nothing
+//@ ensures [p256] algo == ECDSAP256 ==> result1 == nil && typeis(result0, *ecdsaAlgo) && unbox(result0, *ecdsaAlgo) == p256Instance
+//@ ensures [secp256k1] algo == ECDSASecp256k1 ==> result1 == nil && typeis(result0, *ecdsaAlgo) && unbox(result0, *ecdsaAlgo) == secp256k1Instance
+//@ ensures [bls] algo == BLSBLS12381 ==> result1 == nil && typeis(result0, *blsBLS12381Algo)
+//@ ensures [unsupported] algo != ECDSAP256 && algo != ECDSASecp256k1 && algo != BLSBLS12381 ==> result0 == nil && iserr(result1, *invalidInputsError)
+
+//@ func (signer).generatePrivateKey
+//@ requires self != nil
+//@ assigns nothing
+
+//@ func (signer).decodePrivateKey
+//@ requires self != nil
+//@ assigns nothing
+
+//@ func (signer).decodePublicKey
+//@ requires self != nil
+//@ assigns nothing
+
+//@ func (signer).decodePublicKeyCompressed
+//@ requires self != nil
+//@ assigns nothing
+
+//@ pred isECDSA(algo) = algo == ECDSAP256 || algo == ECDSASecp256k1
+//@ pred ctxOf(algo) = ite(algo == ECDSAP256, p256Instance, secp256k1Instance)
+
+//@ func GeneratePrivateKey mode int props C12 C09
+//@ assigns nothing
+//@ ensures [unsupported-algorithm] !isECDSA(algo) && algo != BLSBLS12381 ==> result0 == nil && iserr(result1, *invalidInputsError)
+//@ ensures [seed-length] (isECDSA(algo) || algo == BLSBLS12381) && (len(seed) < 32 || len(seed) > 256) ==> result0 == nil && iserr(result1, *invalidInputsError)
+//@ ensures [ecdsa-key-is-hkdf-of-the-seed-reduced-into-1-to-n-1] isECDSA(algo) && len(seed) >= 32 && len(seed) <= 256 ==> result1 == nil && typeis(result0, *prKeyECDSA) && skECDSAOK(unbox(result0, *prKeyECDSA)) && unbox(result0, *prKeyECDSA).alg == ctxOf(algo) && goKeyOf(unbox(result0, *prKeyECDSA).goPrKey, ctxOf(algo).curve, hkdfNat(seqid(seed), seqid(""), seqid(""), 48) % (curveN(ctxOf(algo).curve) - 1) + 1)
+//@ ensures [bls-key-never-zero] algo == BLSBLS12381 && len(seed) >= 32 && len(seed) <= 256 ==> result1 == nil && typeis(result0, *prKeyBLSBLS12381) && unbox(result0, *prKeyBLSBLS12381).scalar != 0 && frOK(unbox(result0, *prKeyBLSBLS12381).scalar)
+
+//@ func DecodePrivateKey mode int props C05 C12 C09
+//@ assigns nothing
+//@ ensures [unsupported-algorithm] !isECDSA(algo) && algo != BLSBLS12381 ==> result0 == nil && iserr(result1, *invalidInputsError)
+//@ ensures [ecdsa-accepts-exactly-32-byte-scalars-in-1-to-n-1] isECDSA(algo) ==> (result1 == nil) == (len(input) == 32 && 1 <= be32(input[0:32]) && be32(input[0:32]) < curveN(ctxOf(algo).curve))
+//@ ensures [ecdsa-rejects-with-invalid-input] isECDSA(algo) && result1 != nil ==> result0 == nil && iserr(result1, *invalidInputsError)
+//@ ensures [bls-accepts-exactly-32-byte-scalars-in-1-to-r-1] algo == BLSBLS12381 ==> (result1 == nil) == (len(input) == 32 && 1 <= be32(input[0:32]) && be32(input[0:32]) < FrR())
+
+//@ func DecodePublicKey mode int props C05 C09
+//@ assigns nothing
+//@ ensures [unsupported-algorithm] !isECDSA(algo) && algo != BLSBLS12381 ==> result0 == nil && iserr(result1, *invalidInputsError)
+//@ ensures [ecdsa-accepts-exactly-reduced-on-curve-points] isECDSA(algo) ==> (result1 == nil) == (len(input) == 64 && be32(input[0:32]) < curveP(ctxOf(algo).curve) && be32(input[32:64]) < curveP(ctxOf(algo).curve) && onCurve(ctxOf(algo).curve, be32(input[0:32]), be32(input[32:64])))
+//@ ensures [bls-accepts-exactly-canonical-G2-encodings] algo == BLSBLS12381 ==> (result1 == nil) == (len(input) == 96 && g2canon(input) && inG2(g2pt(input)))
+
+//@ func DecodePublicKeyCompressed mode int props C05 C09
+//@ assigns nothing
+//@ ensures [unsupported-algorithm] !isECDSA(algo) && algo != BLSBLS12381 ==> result0 == nil && iserr(result1, *invalidInputsError)
+//@ ensures [ecdsa-accepts-exactly-x962-compressed-points] isECDSA(algo) ==> (result1 == nil) == (len(data) == 33 && (data[0] == 2 || data[0] == 3) && be32(data[1:33]) < curveP(ctxOf(algo).curve) && compressedOK(ctxOf(algo).curve, data[0], be32(data[1:33])))
+//@ ensures [bls-same-as-uncompressed-entry-point] algo == BLSBLS12381 ==> (result1 == nil) == (len(data) == 96 && g2canon(data) && inG2(g2pt(data)))
+
+// BLS key generation: seed length bounds, the result is never the zero scalar (the HKDF rounds are not specified further)
+//@ func (*blsBLS12381Algo).generatePrivateKey mode int props C12 C09
+//@ dead-return 2   // HKDF cannot fail for a 48-byte output
+//@ assigns nothing
+//@ ensures [seed-length] (len(ikm) < 32 || len(ikm) > 256) ==> result0 == nil && iserr(result1, *invalidInputsError)
+//@ ensures [key-never-zero] len(ikm) >= 32 && len(ikm) <= 256 && result1 == nil ==> typeis(result0, *prKeyBLSBLS12381) && unbox(result0, *prKeyBLSBLS12381).scalar != 0 && frOK(unbox(result0, *prKeyBLSBLS12381).scalar)
+//@ ensures [no-error-for-valid-seeds] len(ikm) >= 32 && len(ikm) <= 256 ==> result1 == nil
+//@ loop 1 assigns everything
+//@ loop 1 invariant hasher != nil && fresh(hasher) && hasher.hsize == 32 && len(salt) == 32 && fresh(salt) && sk != nil && fresh(sk) && len(secret) >= 1 && len(ikm) >= 32 && len(ikm) <= 256
